@@ -493,8 +493,9 @@ def do_check(prop, tier, only=None, only_config=None):
         "coverage": coverage, "assumptions": spec["assumptions"], "wall_s": round(wall, 2),
         "violations": len(real),
     }
-    os.makedirs(os.path.join(VERIF, "evidence"), exist_ok=True)
-    with open(os.path.join(VERIF, "evidence", prop + ".json"), "w") as f:
+    evdir = os.environ.get("VERIF_EVIDENCE_DIR") or os.path.join(VERIF, "evidence")
+    os.makedirs(evdir, exist_ok=True)
+    with open(os.path.join(evdir, prop + ".json"), "w") as f:
         json.dump(evidence, f, indent=1, default=str)
         f.write("\n")
     log("%s %s: evaluations=%d distinct=%d inconclusive=%d race_blocks=%d violations=%d known=%d wall=%.1fs" % (
